@@ -5,8 +5,10 @@ From Coq Require Import Permutation.
 From TT Require Import Lib.Base Gen.Handlers Model.Run Spec.Run Spec.C02 Corr.C02 Proof.RunCore Proof.RunExtra Proof.C02.
 
 (* The model meets the whole statement for every finite program (any number of statements per
-   body, cleanups registering cleanups to any depth, any exception values, fixtures, patches),
-   every initial attribute dictionary, on both runs of the instance. *)
+   body, cleanups registering cleanups to any depth, any exception values, fixtures, patches of
+   attributes of an instance, of its class and of the class's base class - held by the target itself,
+   inherited, missing, served by a property or a slot), every initial state of the namespaces of the
+   patched objects, on both runs of the instance. *)
 Theorem C02_holds : forall i : input, wf i = true -> spec_okb i (model i) = true.
 Proof. exact model_meets_spec. Qed.
 Print Assumptions C02_holds.
@@ -15,7 +17,8 @@ Theorem C02_statement : forall i o, spec_okb i o = true -> Spec i o.
 Proof. exact spec_okb_sound. Qed.
 Print Assumptions C02_statement.
 
-(* the correspondence compares logs, leftovers and vars(scratch) of both runs exactly, and of the
+(* the correspondence compares logs, leftovers and the namespaces of the patched objects (as a mapping over
+   the harness's keys) of both runs exactly, and of the
    outcomes whether the second run repeats the first (Corr.C02.alpha) *)
 Theorem C02_obs_eqb : forall a b, obs_eqb a b = true <-> alpha a = alpha b.
 Proof. exact obs_eqb_spec. Qed.
@@ -66,11 +69,21 @@ Theorem C02_stack_empty : forall p s0, stack (snd (observe p s0)) = [] /\ r_left
 Proof. exact stack_empty. Qed.
 Print Assumptions C02_stack_empty.
 
-(* C02_patch_restored: every attribute of the patched object has its value from before the run,
-   or is absent again (attributes are changed only through patch()) *)
+(* C02_patch_restored: every attribute in the namespace of every patched object (instance, class, base
+   class; property and slot attributes) has its value from before the run, or is absent again (attributes
+   are changed only through patch()) *)
 Theorem C02_patch_restored : forall p s0 k, aget k (r_attrs (fst (observe p s0))) = aget k (attrs s0).
 Proof. exact patch_restored. Qed.
 Print Assumptions C02_patch_restored.
+
+(* ... so that no target is left with a shadow of a value it only inherited (the repair of F25: patching
+   Base.x and then Sub.x leaves Sub without an x of its own again), and getattr(obj, name) finds for every
+   target what it found before the run *)
+Theorem C02_namespaces_restored : forall p s0,
+  attrs (snd (observe p s0)) = attrs s0
+  /\ forall k, getattr k (attrs (snd (observe p s0))) = getattr k (attrs s0).
+Proof. exact namespaces_restored. Qed.
+Print Assumptions C02_namespaces_restored.
 
 (* C02_rerun: the second run() of the same instance repeats the sequence and the outcome
    (force_failure and inserted exception handlers are not reset by _reset, but what set them in
@@ -89,18 +102,18 @@ Example C02_example :
   let fx := {| fx_tok := 20; fx_old := false; fx_details := []; fx_cleanups := [(21, None); (22, Some (Exc CValueError None))];
                fx_fail := None; fx_bad := None |} in
   let p := {| p_skip := None; p_xfail := false;
-              p_setup := (1, [APatch 0 5; ACleanup 10 [APatch 0 6; ACleanup 11 [APatch 1 7]]; AFixture fx]);
+              p_setup := (1, [APatch 0 5; ACleanup 10 [APatch 0 6; ACleanup 11 [APatch 3 7]]; AFixture fx]);
               p_up_setup := true;
               p_body := (2, [ACleanup 12 []; ARaise (Exc CKbd None); ACleanup 13 []]);
               p_teardown := (3, [APatch 0 8]); p_up_teardown := true; p_handlers := [] |} in
   wf {| i_prog := p; i_attrs := [(0, 1)] |} = true
   /\ r_log (o_first (model {| i_prog := p; i_attrs := [(0, 1)] |}))
   = [LTok 1; LSet 0 5; LTok 20; LTok 2; LTok 3; LSet 0 8; LSet 0 5; LTok 12; LTok 22; LTok 21; LTok 10; LSet 0 6;
-     LTok 11; LSet 1 7; LDel 1; LSet 0 5; LSet 0 1]
+     LTok 11; LSet 3 7; LDel 3; LSet 0 5; LSet 0 1]
   /\ r_attrs (o_second (model {| i_prog := p; i_attrs := [(0, 1)] |})) = [(0, 1)]
   /\ r_outs (o_first (model {| i_prog := p; i_attrs := [(0, 1)] |})) = [OErr]
-  /\ registered p = [ERestore 0; EUser 10 [APatch 0 6; ACleanup 11 [APatch 1 7]]; ERestore 0; EUser 11 [APatch 1 7];
-                     ERestore 1; EFx fx; EGather fx; EUser 12 []; ERestore 0].
+  /\ registered p = [ERestore 0; EUser 10 [APatch 0 6; ACleanup 11 [APatch 3 7]]; ERestore 0; EUser 11 [APatch 3 7];
+                     ERestore 3; EFx fx; EGather fx; EUser 12 []; ERestore 0].
 Proof. vm_compute. repeat split. Qed.
 
 (* non-vacuity for fixtures with a detail that cannot be evaluated when it is gathered: the gathering
@@ -113,4 +126,20 @@ Example C02_example_unevaluable_detail :
   r_log (o_first (model {| i_prog := p; i_attrs := [] |})) = [LTok 1; LTok 2; LSet 0 5; LTok 20; LTok 3; LTok 21; LDel 0]
   /\ r_outs (o_first (model {| i_prog := p; i_attrs := [] |})) = [OErr]
   /\ cleanup_entries p = [EGather fx; EFx fx; ERestore 0].
+Proof. vm_compute. repeat split. Qed.
+
+(* non-vacuity for the kinds of patch targets: a property-backed attribute (key 30), an unset inherited slot
+   (key 33), a missing class attribute (key 7); the base class's attribute 0 (key 2) and then the class's
+   (key 1, inherited: the old F25 input) - the class is left without an attribute of its own; an attribute
+   the instance inherits from its class (key 3 over key 4): the shadow is deleted again *)
+Example C02_example_targets :
+  let p := {| p_skip := None; p_xfail := false; p_setup := (1, [APatch 30 5; APatch 33 6]); p_up_setup := true;
+              p_body := (2, [APatch 7 2; APatch 2 5; APatch 1 6; APatch 3 4; ARaise (Exc CKbd None)]);
+              p_teardown := (3, []); p_up_teardown := true; p_handlers := [] |} in
+  let i := {| i_prog := p; i_attrs := [(30, 1); (4, 2); (2, 1)] |} in
+  wf i = true
+  /\ r_log (o_first (model i)) = [LTok 1; LSet 30 5; LSet 33 6; LTok 2; LSet 7 2; LSet 2 5; LSet 1 6; LSet 3 4; LTok 3;
+                                   LDel 3; LDel 1; LSet 2 1; LDel 7; LDel 33; LSet 30 1]
+  /\ r_attrs (o_second (model i)) = [(30, 1); (4, 2); (2, 1)]
+  /\ map (fun k => getattr k (r_attrs (o_first (model i)))) [0; 1; 2; 3] = [Some 1; Some 1; Some 1; Some 2].
 Proof. vm_compute. repeat split. Qed.
